@@ -129,3 +129,13 @@ def rto_window_case(draw, tier="quick"):
     ack_fates = draw(st.lists(st.sampled_from(ack_pool), min_size=0, max_size=24))
     fates = [data_fates, ack_fates] if side == 0 else [ack_fates, data_fates]
     return {"client": draw(st.integers(0, 1)), "start_at": 0, "ops": ops, "fates": fates}
+
+
+def yielding(base):
+    """The same case space with a datagram send that suspends (TURN channel bind / refresh, TCP relays): a per-datagram
+    pattern of suspension lengths, cycled per side (vlib.sctpsim.FakeDtls._send_data)."""
+    pattern = st.one_of(
+        st.just([1]),
+        st.lists(st.sampled_from([0, 0, 1, 1, 2, 3, 4, 5, 6]), min_size=1, max_size=12).filter(any),
+    )
+    return st.builds(lambda case, p: dict(case, yield_send=p), base, pattern)
